@@ -41,10 +41,17 @@ def run(rep, pool, driver, tier):
         for flavour in ('r2r', 'b2r', 'r2b', 'b2b'):
             t = dict(cfg, op='wh', flavour=flavour, events=es, eta=eta, policy=policy)
             if flavour in ('r2r', 'r2b'):
-                t['cue_vectors'] = whgen.table(r, CUES, len(CUES) + r.randint(0, 2), onehot=True, prefix='cd')
+                t['cue_vectors'] = whgen.table(r, CUES, len(CUES) + r.randint(0, 3), onehot=True, prefix='cd')
             if flavour in ('r2r', 'b2r'):
-                t['outcome_vectors'] = whgen.table(r, OUTS, len(OUTS) + r.randint(0, 2), onehot=True, prefix='od')
-            ndl_case = dict(cfg, events=es, alpha='1', beta1=eta, beta2=eta, **{'lambda': '1'}, policy=policy)
+                t['outcome_vectors'] = whgen.table(r, OUTS, len(OUTS) + r.randint(0, 5), onehot=True, prefix='od')
+            # chunk sizes that divide one dimension of the weight matrix but not the other (the row
+            # partition must follow the ROW dimension only: seeded changes C08_a, C14_a)
+            n_out_names = len({o for _, os_ in es for o in os_})
+            dims = [len(t[k]['dims']) for k in ('cue_vectors', 'outcome_vectors') if k in t] + [n_out_names, len(CUES)]
+            if r.random() < 0.6:
+                d = r.choice(dims)
+                t['per_job'] = r.choice([x for x in (d, max(1, d // 2), d + 1, max(1, d - 1)) if x >= 1])
+            ndl_case = dict(cfg, per_job=t['per_job'], events=es, alpha='1', beta1=eta, beta2=eta, **{'lambda': '1'}, policy=policy)
             groups.append((t, ndl_case))
     wh_impl = pool.map([t for t, _ in groups])
     ndl_impl = pool.map([L.impl_task(c, 'ndl_openmp') for _, c in groups])
